@@ -178,15 +178,14 @@ impl Bitswap {
         subs.sort();
         let mut dials: Vec<String> = self.pending_dials.iter().map(pname).collect();
         dials.sort();
-        let mut inb: Vec<String> = self.inbound.keys().map(pname).collect();
-        inb.sort();
+        // (`inbound` is not part of the snapshot: a stream that ends is removed by the `StreamMap`
+        // itself without an iteration of the loop; the adapter sees the substream being dropped)
         let snap = format!(
-            "out={}\u{1}pend={}\u{1}subs={}\u{1}dials={}\u{1}in={}",
+            "out={}\u{1}pend={}\u{1}subs={}\u{1}dials={}",
             join(out, ","),
             join(pend, ","),
             join(subs.into_iter().map(|(s, p)| format!("{s}:{p}")).collect(), ","),
             join(dials, ","),
-            join(inb, ","),
         );
         SNAP.with(|s| *s.borrow_mut() = snap);
     }
@@ -480,8 +479,8 @@ pub struct Session {
     opens: BTreeMap<usize, (u64, Permit)>,
     /// far ends of the outbound substreams handed to the protocol: `s<n>` ->
     outs: BTreeMap<usize, Out>,
-    /// far ends of the inbound substreams: `i<k>`
-    ins: Vec<PipeCtl>,
+    /// far ends of the inbound substreams: `i<k>` (with the peer)
+    ins: Vec<(u64, PipeCtl)>,
 }
 
 fn idx(s: &str, prefix: char) -> Option<usize> {
@@ -696,7 +695,19 @@ impl Session {
             })
             .collect::<Vec<_>>()
             .join(" ");
-        format!("{};{};{};{}", join(calls, ","), join(events, ","), join(writes, " "), snap)
+        // peers with an inbound substream the protocol still holds
+        let mut inb: Vec<u64> =
+            self.ins.iter().filter(|(_, ctl)| !ctl.local_closed()).map(|(p, _)| *p).collect();
+        inb.sort();
+        inb.dedup();
+        format!(
+            "{};{};{};{} in={}",
+            join(calls, ","),
+            join(events, ","),
+            join(writes, " "),
+            snap,
+            join(inb.iter().map(|p| p.to_string()).collect(), ",")
+        )
     }
 
     fn entries(kind: &Kind, s: &str) -> Option<Vec<ResponseType>> {
@@ -980,7 +991,7 @@ impl Session {
                                 opening_permit: Permit::new(conn.tx.clone()),
                             })
                             .await;
-                        self.ins.push(ctl);
+                        self.ins.push((p, ctl));
                         format!("i{k}")
                     }
                 }
@@ -1012,8 +1023,8 @@ impl Session {
                 };
                 match self.ins.get(k) {
                     None => "none".into(),
-                    Some(ctl) if ctl.local_closed() => "none".into(),
-                    Some(ctl) => {
+                    Some((_, ctl)) if ctl.local_closed() => "none".into(),
+                    Some((_, ctl)) => {
                         match bytes {
                             Some(b) => ctl.remote_write(&b),
                             None if *op == "inclose" => ctl.remote_close(),
